@@ -67,6 +67,8 @@ def run(tier, build, replay=None):
     for idx, (c, i) in enumerate(zip(base["cases"], base["impl"])):
         if len(pre_cases) >= limit:
             break
+        if l2.is_ods(c):
+            continue        # cuts are made on the rows of a case; an end-to-end case is its files (judged by the other checks)
         instants = sorted({r["ts"][0] for r in c["ins"] + c["outs"] + c["intras"]})
         if len(instants) < 2:
             continue
